@@ -222,6 +222,20 @@ def corruptions(r, buf, limit=24):
             b = bytearray(buf)
             b[i:i + 4] = r.choice([b"\xff\xff\xff\xff", b"\x00\x00\x00\x04", b"\x01\x00\x00\x04", b"\x00\x00\x00\x00"])
             out.append(("len@%d" % i, bytes(b)))
+    # length fields off by a few bytes (an array length that is not a whole number of elements, a string one
+    # byte short/long): every 4-aligned u32 whose value is plausible as a length gets -1, -2, -3, +1
+    cands = []
+    for i in range(0, n - 3, 4):
+        for order in ("little", "big"):
+            v = int.from_bytes(buf[i:i + 4], order)
+            if 1 <= v <= n:
+                cands.append((i, order, v))
+    for (i, order, v) in r.sample(cands, min(len(cands), 3)):
+        d = r.choice([-1, -2, -3, 1, 2])
+        if v + d >= 0:
+            b = bytearray(buf)
+            b[i:i + 4] = (v + d).to_bytes(4, order)
+            out.append(("lenoff@%d" % i, bytes(b) + (bytes(4) if d > 0 else b"")))
     for k in sorted(set([0, 1, 2, 3, n // 2, n - 1, n - 2, n - 4] + [r.randrange(n + 1) for _ in range(3)])):
         if 0 <= k < n:
             out.append(("trunc@%d" % k, buf[:k]))
@@ -233,7 +247,10 @@ def corruptions(r, buf, limit=24):
             out.append(("utf8@%d" % i, bytes(b)))
     out.append(("extend", buf + bytes([r.randrange(256)])))
     r.shuffle(out)
-    return out[:limit]
+    # the off-by-a-few length corruptions are rare among the rest and find their own class of defects: keep them
+    first = [x for x in out if x[0].startswith("lenoff")]
+    rest = [x for x in out if not x[0].startswith("lenoff")]
+    return (first + rest)[:max(limit, len(first))]
 
 
 # ----------------------------------------------------------------------------- canonical form of value tokens
